@@ -43,7 +43,88 @@ def x_exact_low_precision(spec):
     return False
 
 
+def possible_dests(spec, cname, i):
+    """Node ids (1-based) a customer of class `cname` may be routed to after service at node i (1-based); conservative."""
+    c = [x for x in spec["classes"] if x["name"] == cname][0]
+    r = c["routing"]
+    n = len(spec["nodes"])
+    if r["kind"] == "matrix":
+        return set(j + 1 for j in range(n) if r["rows"][i - 1][j] > 0)
+    if r["kind"] == "network":
+        x = r["routers"][i - 1]
+        if x["r"] == "direct":
+            return {x["to"]} - {-1}
+        if x["r"] == "leave":
+            return set()
+        if x["r"] == "prob":
+            return set(d for d, p in zip(x["dests"], x["probs"]) if p > 0)
+        if x["r"] in ("jsq", "lb"):
+            return set(x["dests"])
+        return set(x["cycle"]) - {-1}
+    out = set()
+    for route in r["routes"]:
+        for step in route:
+            out |= set(step) if isinstance(step, list) else {step}
+    return out
+
+
+def x_sched_reroute_self(spec):
+    """F7: a pre-emptive schedule with preemption='reroute' whose rerouting can lead back to the same node re-attaches the
+    customer to a server that is deleted a moment later.  Excluded by turning 'reroute' into 'resample' at such nodes."""
+    hit = False
+    for i, nd in enumerate(spec["nodes"]):
+        if nd["servers"].get("preemption") == "reroute":
+            if any((i + 1) in possible_dests(spec, c["name"], i + 1) for c in spec["classes"]):
+                nd["servers"]["preemption"] = "resample"
+                hit = True
+    return hit
+
+
+def x_jockey_capacity(spec):
+    """F24: a reneging customer that jockeys to another node is accepted there even when that node is full.  Excluded by
+    removing capacitated nodes from jockeying destinations (their probability goes to the exit)."""
+    hit = False
+    for c in spec["classes"]:
+        r = c["routing"]
+        if r["kind"] != "network":
+            continue
+        for x in r["routers"]:
+            j = x.get("jockey")
+            if not j:
+                continue
+            nd_, np_, lost = [], [], 0.0
+            for d, p in zip(j["dests"], j["probs"]):
+                if d != -1 and spec["nodes"][d - 1].get("cap", "inf") != "inf":
+                    lost += p
+                    hit = hit or p > 0
+                else:
+                    nd_.append(d)
+                    np_.append(p)
+            if -1 in nd_:
+                np_[nd_.index(-1)] += lost
+            else:
+                nd_.append(-1)
+                np_.append(lost)
+            x["jockey"] = {"dests": nd_, "probs": np_}
+    return hit
+
+
+def x_preempt_overtime(spec):
+    """F8: pre-emptive priorities at a node with a non-pre-emptive schedule can choose a victim on an off-duty (overtime)
+    server; the server is deleted when detached and the pre-emptor is then attached to the deleted server, where it is
+    stuck while servers idle.  Excluded by dropping pre-emptive priorities at such nodes."""
+    hit = False
+    for nd in spec["nodes"]:
+        if nd.get("prio_preempt") and nd["servers"]["kind"] == "schedule" and not nd["servers"].get("preemption"):
+            del nd["prio_preempt"]
+            hit = True
+    return hit
+
+
 EXCLUSIONS = {
+    "preempt_overtime": x_preempt_overtime,
+    "sched_reroute_self": x_sched_reroute_self,
+    "jockey_capacity": x_jockey_capacity,
     "preempt_renege": x_preempt_renege,
     "exact_low_precision": x_exact_low_precision,
     "preempt_blocked": x_preempt_blocked,
